@@ -107,6 +107,80 @@ func c10Provocations(c *Ctx) map[string]func() string {
 			return c10CompileText(dir+"/src", lib, inv, true, extra)
 		}
 	}
+	// MapExp.GoString abbreviates a map with many keys (first two … last two): error text naming a big literal
+	for _, nk := range []int{17, 23, 40} {
+		nk := nk
+		var ents []string
+		for i := 0; i < nk; i++ {
+			v := fmt.Sprint(i)
+			if i == nk/2 {
+				v = "\"not an int\""
+			}
+			ents = append(ents, fmt.Sprintf("\"key%03d\": %s", (i*7)%nk, v))
+		}
+		lib := "stage ST(\n    in  map<int> m,\n    in  int x,\n    out int r,\n    src comp \"bin/st\",\n)\n\npipeline TOP(\n    in  int x,\n    out int r,\n)\n{\n    call ST(\n        m = {" +
+			strings.Join(ents, ", ") + "},\n        x = self.x,\n    )\n\n    return (\n        r = ST.r,\n    )\n}\n"
+		out[fmt.Sprintf("MapExp.GoString(%d keys)", nk)] = func() string { return c10CompileText(dir+"/gostr", lib, inv, false, nil) }
+	}
+	// keys that are equal under a folding a sorter might apply (ASCII / Unicode case, surrounding blanks):
+	// formatted source, call-graph JSON and error text must still be byte-identical
+	{
+		keys := []string{"sample_a", "SAMPLE_A", "Sample_A", "sample_b", "SAMPLE_B", "x", "X", "x ", " x", "\u00e9t\u00e9", "\u00c9T\u00c9", "straSSe", "stra\u00dfe"}
+		var ents, bad []string
+		for i, k := range keys {
+			ents = append(ents, fmt.Sprintf("%q: %d", k, i))
+			bad = append(bad, fmt.Sprintf("%q: \"s%d\"", k, i))
+		}
+		mk := func(entries []string) string {
+			return "struct Cs(\n    int sample_a,\n    int SAMPLE_A,\n    int Sample_A,\n    int sAMPLE_a,\n)\n\nstage ST(\n    in  map<int> m,\n    in  map      u,\n    in  Cs       c,\n    in  int      x,\n    out int      r,\n    src comp     \"bin/st\",\n)\n\npipeline TOP(\n    in  int x,\n    out int r,\n)\n{\n    call ST(\n        m = {" +
+				strings.Join(entries, ", ") + "},\n        u = {" + strings.Join(ents, ", ") + "},\n        c = {sAMPLE_a: 4, Sample_A: 3, SAMPLE_A: 2, sample_a: 1},\n        x = self.x,\n    )\n\n    return (\n        r = ST.r,\n    )\n}\n"
+		}
+		good, ill := mk(ents), mk(bad)
+		out["MapExp.format(keys equal under case folding)"] = func() string { return c10CompileText(dir+"/case", good, inv, false, nil) }
+		out["MapExp.sortedKeys(keys equal under case folding)"] = func() string { return c10CompileText(dir+"/caseerr", ill, inv, false, nil) }
+	}
+	// `mro format --includes`: a file that lacks the includes of several private (underscore) and public
+	// files in its own and in another directory, and of files whose name contains its own name
+	{
+		files := map[string]string{}
+		var calls []string
+		prev := "self.value"
+		add := func(file, stage string) {
+			files[file] = "\nstage " + stage + "(\n    in  int value,\n    out int result,\n    src comp \"" + strings.ToLower(stage) + "\",\n)\n"
+			calls = append(calls, "    call "+stage+"(\n        value = "+prev+",\n    )\n")
+			prev = stage + ".result"
+		}
+		add("_align_stages.mro", "ALIGN")
+		add("_count_stages.mro", "COUNT")
+		add("_report_stages.mro", "REPORT")
+		add("merge_stages.mro", "MERGE")
+		add("filter_stages.mro", "FILTER")
+		add("sub/_deep_stages.mro", "DEEP")
+		add("sub/_deeper_stages.mro", "DEEPER")
+		add("sub/wide_stages.mro", "WIDE")
+		add("sub/wider_stages.mro", "WIDER")
+		add("_analysis_stages.mro", "OWN_A")
+		add("_analysis_more_stages.mro", "OWN_B")
+		add("analysis_helpers.mro", "OWN_C")
+		top := "\npipeline ANALYSIS(\n    in  int value,\n    out int result,\n)\n{\n" + strings.Join(calls, "\n") + "\n    return (\n        result = " + prev + ",\n    )\n}\n"
+		files["analysis.mro"] = top
+		fdir := dir + "/fixinc"
+		out["fixIncludes"] = func() string {
+			if err := c15Write(fdir, files); err != nil {
+				return "WRITE-ERR " + err.Error()
+			}
+			txt, err := syntax.FormatFile(filepath.Join(fdir, "analysis.mro"), true, []string{fdir, fdir + "/sub"})
+			return strings.ReplaceAll(txt+fmt.Sprint(" / ", err), fdir, "$D")
+		}
+		// the same with the sub-directory NOT on the search path: several definitions cannot be found
+		out["Parser.findMissingIncludes"] = func() string {
+			if err := c15Write(fdir, files); err != nil {
+				return "WRITE-ERR " + err.Error()
+			}
+			txt, err := syntax.FormatFile(filepath.Join(fdir, "analysis.mro"), true, []string{fdir})
+			return strings.ReplaceAll(txt+fmt.Sprint(" / ", err), fdir, "$D")
+		}
+	}
 	// --- core, through exported API -------------------------------------------------------
 	if _, _, ast, err := syntax.ParseSourceBytes([]byte(c10ProvokeCoreSrc(n)), filepath.Join(dir, "core.mro"), nil, false); err != nil {
 		c.Res.note("core provocation program does not compile: %v", err)
@@ -239,6 +313,9 @@ func c10RunProvocations(c *Ctx, boost map[string]bool) {
 			site = site[:i]
 		}
 		nrep := reps
+		if strings.HasPrefix(name, "MapExp.GoString(") && nrep < 300 {
+			nrep = 300 // the one-pass key selection for big maps only differs for some iteration orders
+		}
 		if reported[site] {
 			nrep = reps * 5
 			r.note("site list reports %s: provocation %q run with %d repetitions", site, name, nrep)
